@@ -75,3 +75,83 @@ def match_spans(results):
     for r in results:
         out.append((r.start, r.length))
     return out
+
+
+def digits_text(vals):
+    out = ''
+    for v in vals:
+        out = out + digit_char(v)
+    return out
+
+
+def canon_digits(vals):
+    """decimal numeral of the same number without leading zeros ('0' for zero)"""
+    k = 0
+    while k < len(vals) - 1 and vals[k] == 0:
+        k = k + 1
+    out = ''
+    for j in range(k, len(vals)):
+        out = out + digit_char(vals[j])
+    return out
+
+
+def ipv4_text(octets):
+    out = ''
+    for k in range(len(octets)):
+        if k > 0:
+            out = out + '.'
+        out = out + digits_text(octets[k])
+    return out
+
+
+def ipv4_canon(octets):
+    out = ''
+    for k in range(len(octets)):
+        if k > 0:
+            out = out + '.'
+        out = out + canon_digits(octets[k])
+    return out
+
+
+def hex_text(vals):
+    out = ''
+    for v in vals:
+        out = out + hex_char(v)
+    return out
+
+
+def canon_hex(vals):
+    k = 0
+    while k < len(vals) - 1 and vals[k] == 0:
+        k = k + 1
+    out = ''
+    for j in range(k, len(vals)):
+        out = out + hex_char(vals[j])
+    return out
+
+
+def ipv6_text(groups, ellipsis_after):
+    """hextets joined by ':'; ellipsis_after = k puts '::' after group k-1 (k = 0: leading '::'), -1: none"""
+    out = ''
+    for k in range(len(groups)):
+        if k == ellipsis_after:
+            out = out + '::'
+        elif k > 0:
+            out = out + ':'
+        out = out + hex_text(groups[k])
+    if ellipsis_after == len(groups):
+        out = out + '::'
+    return out
+
+
+def ipv6_canon(groups, ellipsis_after):
+    out = ''
+    for k in range(len(groups)):
+        if k == ellipsis_after:
+            out = out + '::'
+        elif k > 0:
+            out = out + ':'
+        out = out + canon_hex(groups[k])
+    if ellipsis_after == len(groups):
+        out = out + '::'
+    return out
